@@ -23,11 +23,15 @@ def run(ctx):
     iw = calc.INTERSTITIAL_WORLDS[:6] if quick else calc.INTERSTITIAL_WORLDS
     for name, chem, shell in iw:
         s = calc.interstitial(name, chem, shell, rng)
-        for rep in range(1 if quick else 4):
+        for rep in range(2 if quick else 4):
             d = calc.interstitial_data(s, rng, 0, 2)
+            if rep % 2 == 1:
+                # realistic absolute barriers: all rates ~ 2^-35..2^-30; one lowered class may cross any
+                # absolute threshold inside the calculator
+                d["eneTL"] = [e + 30 + rng.randint(0, 5) for e in d["eneTL"]]
             D0 = s.calc.diffusivity(*calc.interstitial_args(d))
             for k in range(s.Njump):
-                for dec in ((1,) if quick else (1, 3)):
+                for dec in ((1,) if quick and rep % 2 == 0 else (1, 3)):
                     t = dict(d, eneTL=[e - (dec if i == k else 0) for i, e in enumerate(d["eneTL"])])
                     D1 = s.calc.diffusivity(*calc.interstitial_args(t))
                     add(cases, metas, s, {"D": (D0, D1)}, "interstitial|%s|%d" % (name, chem), "jump%d-%d" % (k, dec),
